@@ -828,10 +828,24 @@ func playFile(events []fileEvent, m *module, lists [][]any) (string, bool) {
 	if !waitFor(func() bool { return fmt.Sprint(m.current()) == fmt.Sprint(want) }, 10*time.Second) {
 		return fmt.Sprintf("after Initialize the rules are %v, the file describes %v", m.current(), want), false
 	}
+	// pick returns the drawn list, or the other one when the drawn list would leave the rules in force unchanged: only an
+	// event that changes the expected rules lets the convergence check tell "the watcher has handled it" from "not yet"
+	pick := func(k int) []any {
+		if fmt.Sprint(sortedKeys(m, lists[1+k])) != fmt.Sprint(want) {
+			return lists[1+k]
+		}
+		if fmt.Sprint(sortedKeys(m, lists[2-k])) != fmt.Sprint(want) {
+			return lists[2-k]
+		}
+		return nil
+	}
 	for i, ev := range events {
 		switch ev.kind {
 		case 0, 1:
-			l := lists[1+ev.kind]
+			l := pick(ev.kind)
+			if l == nil {
+				continue
+			}
 			if err := os.WriteFile(path, m.encode(l), 0o644); err != nil {
 				return err.Error(), true
 			}
@@ -859,7 +873,10 @@ func playFile(events []fileEvent, m *module, lists [][]any) (string, bool) {
 			}
 			time.Sleep(150 * time.Millisecond) // (nothing observable is expected to change: give the watcher time to react)
 		case 4, 5: // the file is renamed away and a new file is put in its place (list A / list B)
-			l := lists[1+ev.kind-4]
+			l := pick(ev.kind - 4)
+			if l == nil {
+				continue
+			}
 			if err := os.Rename(path, path+fmt.Sprint(".old", i)); err != nil {
 				return err.Error(), true
 			}
